@@ -2020,18 +2020,22 @@ RULE = (
 )
 
 LEVEL_TEXT = (
-    "Lean theorems over all names (all of Unicode, every UEnv/Env) for the naming and renaming decision cores: for every "
-    "convention Filters accepts (first alphanumeric of the safe prefix is a letter; anything else is rejected with a CodegenError) "
-    "and all eight naming cases, safe_name terminates within 11 calls (3 for the defaults), never returns a reserved word nor a "
-    "Python keyword (every hard keyword of the running interpreter is a stop word: table theorem re-checked each run) and always "
-    "yields an identifier; the slug is invariant under case conversion; unique_name/next_qname/next_available_name always terminate "
-    "with a fresh slug; rename_duplicate_attributes leaves pairwise different slugs for EVERY attr list (full strength); "
-    "add_abstract_suffix records only fresh keys; counterexample theorems remain for safe-prefix collisions. The model is tied to "
-    "/repo by a differential check (18 ops), and the property itself is evaluated end to end on the REAL generator "
-    "(transformer.process, all handlers, CodeWriter, validate_imports; stand-in only for the Jinja2 templates): every written file "
-    "compiles, has no duplicate members/classes, the package imports, every class yields binding metadata "
-    "(XmlContext.build_recursive) and an instance, for hostile XSD (one and two namespaces) / JSON / XML sources under structure "
-    "styles x compound/wrapper/unnest x frozen/slots x relative imports x generic collections x naming cases."
+    "Lean theorems over all inputs for the naming, renaming and layout decision cores. Naming (Props/C07.lean): for every convention "
+    "Filters accepts and all eight naming cases safe_name terminates (<= 11 calls), never returns a reserved word or Python keyword, "
+    "always yields an identifier; slug invariance; unique_name/next_qname/next_available_name terminate with a fresh slug; "
+    "rename_duplicate_attributes and RenameDuplicateClasses leave pairwise different slugs / keys for EVERY input (full strength); "
+    "counterexamples remain for safe-prefix collisions. Layout (Props/C07Layout.lean): toposort_flatten emits every item after its "
+    "dependencies and fails exactly on cyclic dependencies; after a successful DependenciesResolver run every dependency of every class "
+    "is defined earlier in the module or imported from the module the registry names (import sufficiency), and the resolver fails only "
+    "for duplicate qnames, cycles or unprovided dependencies; DetectCircularReferences.is_circular decides reachability and always "
+    "answers, after the handler no plain reference lies on a cycle (any processing order), flags are only set on real cycles, the "
+    "remaining plain references are acyclic; inner classes of one class get different slugs; the class created for an ambiguous choice "
+    "lives in its source's namespace; final qnames are unique. The model is tied to /repo by a differential check (22 ops) and the "
+    "property itself is evaluated end to end on the REAL generator (transformer.process, all handlers, CodeWriter, validate_imports; "
+    "stand-in only for the Jinja2 templates): files compile, no duplicate members / inner / module classes, the package imports (an "
+    "ImportError or a consistency error hidden behind CodegenError counts as failure for valid sources), every class binds and "
+    "instantiates, for hostile XSD (one/two namespaces, cyclic and inheriting complex types, anonymous inner types, repeating choices) / "
+    "JSON / XML sources under structure styles x compound/wrapper/unnest x frozen/slots x relative imports x generic collections x cases."
 )
 LEVEL_NOTE = (
     "Partial: only the naming/renaming cores are modelled in Lean; package designation, import resolution, circular-reference "
